@@ -135,7 +135,7 @@ def directional_available():
 
 
 def run(ctx):
-    for k in range(ctx.n(40, 400)):
+    for k in range(ctx.n(80, 600)):
         check_case(ctx, gen(ctx))
     if not directional_available():
         ctx.count('directional_base_class_unavailable')
